@@ -1237,9 +1237,30 @@ func (b *Builder) withHistory(base *Term, v ssa.Value, at ssa.Instruction, depth
 		return base
 	}
 	if h := b.history(v, at, depth); len(h) > 0 {
-		return &Term{Op: "obj", V: v, Args: append([]*Term{base}, h...)}
+		return canonObj(&Term{Op: "obj", V: v, Args: append([]*Term{base}, h...)})
 	}
 	return base
+}
+
+// canonObj: b := make([]byte, n); copy(b[n-len(x):], x) is x left-padded with zeros to n bytes.
+func canonObj(t *Term) *Term {
+	if t.Op != "obj" || len(t.Args) != 2 {
+		return t
+	}
+	base, ev := t.Args[0], t.Args[1]
+	if base.Op != "makeslice" || (base.Name != "[]byte" && base.Name != "[]uint8") || len(base.Args) != 2 || base.Args[0].String() != base.Args[1].String() {
+		return t
+	}
+	if ev.Op != "call" || ev.Name != "builtin.copy" || len(ev.Args) != 2 {
+		return t
+	}
+	d, src := ev.Args[0], ev.Args[1]
+	if d.Op == "slice" && len(d.Args) == 3 && d.Args[0].Op == "self" && d.Args[2].Op == "none" && d.Args[1].Op == "bin" && d.Args[1].Name == "-" && len(d.Args[1].Args) == 2 {
+		if n, l := d.Args[1].Args[0], d.Args[1].Args[1]; n.String() == base.Args[0].String() && l.Op == "len" && len(l.Args) == 1 && l.Args[0].String() == src.String() {
+			return &Term{Op: "call", Name: "leftpad", V: t.V, Args: []*Term{src, n}}
+		}
+	}
+	return t
 }
 
 // objAt renders the object v denotes with the mutation history preceding `at`.
@@ -1290,7 +1311,7 @@ func (b *Builder) objAt(v ssa.Value, at ssa.Instruction, depth int) *Term {
 			}
 		}
 	}
-	return &Term{Op: "obj", V: v, Args: append([]*Term{base}, h...)}
+	return canonObj(&Term{Op: "obj", V: v, Args: append([]*Term{base}, h...)})
 }
 
 // lengthLike: len(x), cap(x), or such a value plus / times non-negative constants.
